@@ -56,3 +56,28 @@ Proof.
     destruct Hinv as [Il If]. rewrite Il in Hin. rewrite If in Hf. rewrite Hpos in *.
     destruct Hshort as [Hs|[k [Ek Hk]]]; [lia|]. rewrite Ek in Hf. lia.
 Qed.
+
+(* ---- every quantity a full-decode script names (allocation sizes, read lengths) is at most the surface's byte
+   length, hence below 2^63 once check_likely_overflow has passed: no u64 arithmetic of the script can wrap *)
+Definition eff_size (e : eff) : N := match e with EAlloc n | ESkip n | ERead n => n end.
+Theorem full_script_sizes p fast W H : wf_pixel_info p -> likely_overflow p W H = false ->
+  Forall (fun e => eff_size e <= spec_len p W H /\ spec_len p W H <= I64MAX) (script_full p fast W H).
+Proof.
+  intros Hp Hov. unfold likely_overflow in Hov. rewrite surface_bytes_spec in Hov.
+  destruct (spec_len p W H <? U64) eqn:EU; [|discriminate]. apply N.ltb_ge in Hov.
+  unfold script_full. destruct (is_empty W H) eqn:Ee; [constructor|].
+  unfold is_empty in Ee. apply orb_false_elim in Ee. destruct Ee as [EW EH]. apply N.eqb_neq in EW, EH.
+  destruct p as [enc|bpb bw bh|e1 e2 sx sy]; cbn [spec_len wf_pixel_info] in *.
+  - pose proof (line_buffer_bounds (W * enc) H ltac:(nia) ltac:(lia)) as LB.
+    destruct fast; repeat constructor; cbn [eff_size]; try lia; try nia.
+  - destruct Hp as [Hb [Hw Hh]].
+    assert (1 <= div_ceil W bw) by (apply div_ceil_pos; lia). assert (1 <= div_ceil H bh) by (apply div_ceil_pos; lia).
+    pose proof (line_buffer_bounds (div_ceil W bw * bpb) (div_ceil H bh) ltac:(nia) ltac:(lia)) as LB.
+    repeat constructor; cbn [eff_size]; try lia; try nia.
+  - destruct Hp as [H1 [H2 [H3 [Hsx Hsy]]]].
+    assert (1 <= div_ceil W sx) by (apply div_ceil_pos; lia). assert (1 <= div_ceil H sy) by (apply div_ceil_pos; lia).
+    assert (LB : line_buffer_len (div_ceil W sx * e2) (div_ceil H sy) <= div_ceil W sx * e2 * div_ceil H sy).
+    { destruct (N.eq_dec e2 0) as [->|Hne]; [unfold line_buffer_len; rewrite N.mul_0_r; cbn; lia|].
+      pose proof (line_buffer_bounds (div_ceil W sx * e2) (div_ceil H sy) ltac:(nia) ltac:(lia)). lia. }
+    repeat constructor; cbn [eff_size]; try lia; try nia.
+Qed.
